@@ -199,6 +199,8 @@ def register_filehasher_next(reg):
       params={"self": FH},
       merge_ifs=False,
       shards=6,
+      exists={"D": "bytes", "blocks": "list[digest]", "layer_hash": "bytes"},
+      modifies=["self.current", "self.layer_hashes", "self.pieces", "self.end", "self.root", "self.piece_layer", "self.padding_file"],
       requires=["self.piece_length >= 16384 and is_pow2(self.piece_length)", "self.amount * 16384 == self.piece_length",
                 "self.amount >= 1 and is_pow2(self.amount)", "file_open(self.current) or self.end"],
       returns="any",
